@@ -249,13 +249,13 @@ func c17Forms(body []byte) map[string]url.Values {
 	return out
 }
 
-
 // ---------------------------------------------------------------- fragment/query x dot-segments x dangerous pair
 // net/http.Redirect splits a host-less target at the first '?' only and runs path.Clean over everything in front
 // of it; url.Parse splits at '#' and '?' and decodes.  A destination whose first segments carry a fragment or
 // query marker (raw or encoded), followed by enough ".." to cancel them, followed by a dangerous pair and a host,
 // is where a filter that looks at the PARSED components and the redirect that cleans the RAW string disagree:
-//   /<seg>[/<seg>]{#,?,%23,...}[/<seg>]/..{/..}*/<dangerous pair><host>
+//
+//	/<seg>[/<seg>]{#,?,%23,...}[/<seg>]/..{/..}*/<dangerous pair><host>
 func c17DotSegPrefixes(markers []string, allPositions bool) []string {
 	var out []string
 	segs := []string{"a", "b", "c"}
@@ -390,7 +390,7 @@ func c17HeaderNames(param string) []string {
 }
 
 // every shape of request that carries `hostile` somewhere a handler could read it, but no form/query value
-func c17ChannelProbes(h c17ChannelHarvest, hostile string) []c17Probe {
+func c17ChannelProbes(h c17ChannelHarvest, hostile string, sessionCookies []string) []c17Probe {
 	var out []c17Probe
 	params := h.DestinationParams
 	if len(params) == 0 {
@@ -421,7 +421,11 @@ func c17ChannelProbes(h c17ChannelHarvest, hostile string) []c17Probe {
 			}
 			ch := []c17Chan{{0, n, v}}
 			out = append(out, c17Probe{class: "cookie", cookiesBefore: []string{n + "=" + v}, chans: ch})
-			out = append(out, c17Probe{class: "cookie", cookiesAfter: []string{n + "=" + v}, chans: ch})
+			for _, sc := range sessionCookies {
+				if sc == n { // a second cookie of the session's own name: the order matters to whoever picks one
+					out = append(out, c17Probe{class: "cookie", cookiesAfter: []string{n + "=" + v}, chans: ch})
+				}
+			}
 			if enc.name == "query-escaped" {
 				out = append(out, c17Probe{class: "cookie+empty-form-value", form: &empty, cookiesAfter: []string{n + "=" + v}, chans: ch})
 			}
@@ -479,7 +483,7 @@ func c17Env(t *testing.T, providerURL string, force bool, more func(c *AppConfig
 }
 
 func TestVerif_C17(t *testing.T) {
-	res := newVerifResult("login_destination strings: exhaustive over {/ \\\\ . a TAB ? # % : @}^<=L (L=4 quick, 5 thorough) through getLoginDestination+http.Redirect, a structured adversarial list, every raw/percent-encoded pair of dangerous bytes after the leading slash, and seeded random strings through POST /api/v0/login (text/html); the federated-login flow; the success path of every redirecting second-factor handler (bootstrap OTP, TOTP, VIP, Okta) with hostile values in the form field, the query string, Referer, Origin and forwarding headers; non-trivial = the filter accepted the string (redirect target differs from the profile page); distinct by (input, Location)")
+	res := newVerifResult("login_destination strings: exhaustive over {/ \\\\ . a TAB ? # % : @}^<=L (L=4 quick, 5 thorough) through getLoginDestination+http.Redirect, a structured adversarial list, every raw/percent-encoded pair of dangerous bytes after the leading slash, and seeded random strings through POST /api/v0/login (text/html); the federated-login flow; the success path of every redirecting second-factor handler (bootstrap OTP, TOTP, VIP, Okta) with hostile values in the form field, the query string, Referer, Origin and forwarding headers; the family /<seg>{#,?,%23}/..{/..}*/<dangerous pair><host> (1-3 leading segments) at function level and through every redirecting handler; the channel family: no form/query value and hostile values in every cookie name the package reads or sets (harvested from the source), cookies and headers named like the parameter, a JSON body, a multipart field, a path suffix, through loginHandler, every second-factor success path and the federated flow; non-trivial = the filter accepted the string (redirect target differs from the profile page); distinct by (input, Location)")
 	// a fake OAuth2 provider for the federated-login flow
 	provider := httptest.NewServer(http.HandlerFunc(func(w http.ResponseWriter, r *http.Request) {
 		w.Header().Set("Content-Type", "application/json")
@@ -641,8 +645,11 @@ func TestVerif_C17(t *testing.T) {
 		record(s, rr.Header().Get("Location"), "loginHandler", true)
 	}
 	// the same through a request whose Host header carries the port
-	for _, s := range c17OwnHostURLs("keymaster.example:443", false) {
+	for i, s := range c17OwnHostURLs("keymaster.example:443", false) {
 		if !strings.HasPrefix(s, "https://") && !strings.HasPrefix(s, "//") {
+			continue
+		}
+		if i%2 == 1 && !verifThorough() { // the function-level sweep (1b) sees every one under both Host headers
 			continue
 		}
 		form := url.Values{}
@@ -1197,9 +1204,9 @@ func TestVerif_C17(t *testing.T) {
 		} else {
 			res.hit(verifHit{Key: "C17:harness:oauth2-begin", Oracle: "harness", What: "federated login could not be started", Case: sdest})
 		}
-		// every handler sees every third member in the quick tier (each a different third)
+		// every handler sees every third member in the quick tier (each a different third), two thirds in the thorough tier
 		for j, pr := range provers {
-			if verifThorough() || (i+j)%3 == 0 {
+			if (verifThorough() && (i+j)%2 == 0) || (i+j)%3 == 0 {
 				secondFactor(pr, sdest, "form")
 			}
 		}
@@ -1297,7 +1304,7 @@ func TestVerif_C17(t *testing.T) {
 		chanHostile = append(chanHostile, "/ok/landing?x=1", "/a#/../\\evil.example/", "/%2Fevil.example/", "/\t/evil.example", "\\\\evil.example", "evil.example")
 	}
 	for _, hostile := range chanHostile {
-		for _, p := range c17ChannelProbes(harvest, hostile) {
+		for _, p := range c17ChannelProbes(harvest, hostile, []string{authCookieName}) {
 			// loginHandler
 			need := url.Values{}
 			need.Set("username", "alice")
